@@ -22,6 +22,7 @@ CHECKS = {
                 "only valuations that satisfy the context rows are judged (the tree is unspecified elsewhere)",
                 "R.MILP lexicographic minimum (ref/milp.hh): vertex/ray window argument, self-tested against plain enumeration; the spanning code is self-tested on the class documentation's example",
                 "every solve runs under a CPU budget (0.05 s through abandon_expensive_computations, 1 s when re-run before a hang is reported); solves under PIVOT_ROW_STRATEGY_MAX_COLUMN run first in a forked child with a hard CPU limit (0.3 s, 3 s to confirm) because a loop without cancellation points was met there",
+                "a solve without an answer is attributed by predicates over the problem data or over the tree about to be re-solved only, never by where the computation was when it was abandoned (that depends on the machine's speed); a fresh solve without an answer matches no known finding",
                 "re-solves of a tree in which a decision node declares artificial parameters run in a forked child: the unchanged library corrupts the heap there (open finding), and the damage must not reach later cases",
                 "states of the incremental exploration are merged on a 128-bit hash of the ascii_dump text within one (initial problem, first operation) shard",
             ]},
